@@ -1499,17 +1499,18 @@ class Stream(AbstractStream):
                 phases = self.phase + ''.join([i.phase for i in others])
                 self.phases = phases
             if vle:
+                if energy_balance: H = sum([i.H for i in streams], Q)
                 self._imol.mix_from([i._imol for i in streams])
                 if energy_balance: 
-                    H = sum([i.H for i in streams], Q)
                     self.vle(H=H, P=P)
                 else:
                     self.vle(T=self.T, P=P)
                 self.reduce_phases()
             else:
                 if energy_balance: 
-                    self._imol.mix_from([i._imol for i in streams])
                     H = sum([i.H for i in streams], Q)
+                    imols = [i._imol.copy() if i is self else i._imol for i in streams]
+                    self._imol.mix_from(imols)
                     if conserve_phases: 
                         self.H = H
                     else:
@@ -1517,7 +1518,7 @@ class Stream(AbstractStream):
                             self.H = H
                         except:
                             self.phases = self.phase + ''.join([i.phase for i in others])
-                            self._imol.mix_from([i._imol for i in streams])
+                            self._imol.mix_from(imols)
                             self.H = H
                 else:
                     self._imol.mix_from([i._imol for i in streams])
